@@ -285,8 +285,9 @@ pub fn child_acc08() -> ! {
     };
     let mut foreign = info_hash;
     foreign[0] ^= 0xff;
-    let plain = probe(None, handshake(&foreign, b"-PROBE-0000000000001"));
+    // (the candidate's address first: a connection that ends makes the client take the next candidate from the queue)
     let cand = probe(Some(cand_port), handshake(&info_hash, b"-PROBE-0000000000002"));
+    let plain = probe(None, handshake(&foreign, b"-PROBE-0000000000001"));
     eprintln!(
         "E2E good={} contacted={} hash={} plain={} cand={}",
         good_sent.load(Ordering::SeqCst),
